@@ -80,6 +80,15 @@ def is_err(x):
     return isinstance(x, dict) and 'error' in x
 
 
+def unscale(nd, case, power=1):
+    """implementation value n/d of a quantity that scales with length^power ->
+    the value on the unscaled (integer) mesh, as an exact fraction [n', d']"""
+    sc = case.get('scale')
+    if not sc:
+        return nd
+    return [nd[0] * sc[1] ** power, nd[1] * sc[0] ** power]
+
+
 def frac_int(nd):
     f = Fraction(nd[0], nd[1])
     return int(f) if f.denominator == 1 else None
@@ -88,7 +97,8 @@ def frac_int(nd):
 # ------------------------------------------------------------- impl runner
 def run_impl(ctx, cases, tag='impl'):
     spec = {'work': str(ctx.scratch / 'work'), 'out': str(ctx.scratch / f'{tag}_out.json'),
-            'cases': [{k: c[k] for k in ('id', 'nodes', 'blocks', 'want')} for c in cases]}
+            'cases': [{k: c[k] for k in ('id', 'nodes', 'blocks', 'want', 'scale', 'move') if k in c}
+                      for c in cases]}
     sp = ctx.scratch / f'{tag}_spec.json'
     sp.write_text(json.dumps(spec))
     r = subprocess.run([lib.PY, str(lib.VERIF / 'harness' / 'c10_impl.py'), str(sp)],
@@ -156,11 +166,13 @@ def case_checks(case, r, expect_ok=True):
     else:
         parts = []
         for typ, es in case['blocks'].items():
-            vs = lib.coq_list(['(%s, %s)' % (lib.coq_Z(a), lib.coq_Z(b)) for a, b in v[typ]])
+            vs = lib.coq_list(['(%s, %s)' % (lib.coq_Z(a), lib.coq_Z(b))
+                               for a, b in (unscale(x, case, 3) for x in v[typ])])
             eslit = lib.coq_list(['(%s, %s)' % (lib.coq_Z(e[0]), zl(e[1])) for e in es])
             parts.append(f'check_block_volumes pos{i} {COQ_TYPE[typ]} {eslit} {vs}')
         out.append(' && '.join(parts) if parts else T)
-        tot = lib.coq_list(['(%s, %s)' % (lib.coq_Z(a), lib.coq_Z(b)) for a, b in v['_total']])
+        tot = lib.coq_list(['(%s, %s)' % (lib.coq_Z(a), lib.coq_Z(b))
+                            for a, b in (unscale(x, case, 3) for x in v['_total'])])
         out.append(f'sum_fracs_close (mesh_vol24 ZOps pos{i} m{i}) {tot}')
     ob = r.get('obj')
     if ob is None or is_err(ob):
@@ -169,8 +181,8 @@ def case_checks(case, r, expect_ok=True):
         lines = []
         bad = False
         for ln in ob['lines']:
-            if ln[0] == 'v' and len(ln) == 4 and all(frac_int(x) is not None for x in ln[1:]):
-                lines.append('OV ' + c3([frac_int(x) for x in ln[1:]]))
+            if ln[0] == 'v' and len(ln) == 4 and all(frac_int(unscale(x, case)) is not None for x in ln[1:]):
+                lines.append('OV ' + c3([frac_int(unscale(x, case)) for x in ln[1:]]))
             elif ln[0] == 'f':
                 lines.append('OF ' + zl(ln[1:]))
             else:
@@ -179,11 +191,11 @@ def case_checks(case, r, expect_ok=True):
         coords = lib.coq_list([c3(n[1]) for n in case['nodes']])
         out.append('false' if bad else f'check_obj_write m{i} {coords} ol{i}')
         rd = ob['read']
-        okc = all(frac_int(x) is not None for row in rd['node_xyz'] for x in row)
+        okc = all(frac_int(unscale(x, case)) is not None for row in rd['node_xyz'] for x in row)
         if not okc or set(rd['elements']) - {'tri', 'quad', 'polygon'}:
             out.append('false')
         else:
-            nodes = lib.coq_list(['(%s, %s)' % (lib.coq_Z(a), c3([frac_int(x) for x in row]))
+            nodes = lib.coq_list(['(%s, %s)' % (lib.coq_Z(a), c3([frac_int(unscale(x, case)) for x in row]))
                                   for a, row in zip(rd['nodes'], rd['node_xyz'])])
             parts = []
             for k in ('tri', 'quad', 'polygon'):
@@ -340,7 +352,7 @@ def oracle(case, r):
         bad.append(('enclosed_volume', {'enclosed': str(enc), 'sum_of_elements': str(tot)}))
     v = r.get('volumes')
     if v is not None and not is_err(v):
-        ft = sum(Fraction(a, b) for a, b in v['_total'])
+        ft = sum(Fraction(*unscale([a, b], case, 3)) for a, b in v['_total'])
         if abs(ft - tot) > Fraction(1, 2 ** 18) * (abs(tot) + 1):
             bad.append(('femio_volume_sum', {'femio': str(ft), 'exact': str(tot)}))
     # views
@@ -354,6 +366,11 @@ def oracle(case, r):
                 bad.append(('to_surface_differs', {'n': len(got)}))
             if sorted(ts['nodes']) != sorted({i for f in surf for i in f}):
                 bad.append(('to_surface_nodes', None))
+            # the surface mesh object pairs every kept node id with that node's coordinates
+            for nid, row in zip(ts['nodes'], ts['node_xyz']):
+                if nid not in xyz or [Fraction(*unscale(x, case)) for x in row] != list(map(Fraction, xyz[nid])):
+                    bad.append(('to_surface_node_coordinates', {'node': nid}))
+                    break
     ob = r.get('obj')
     if ob is not None:
         if is_err(ob):
@@ -361,7 +378,8 @@ def oracle(case, r):
         else:
             vs = [ln for ln in ob['lines'] if ln[0] == 'v']
             fs = [ln for ln in ob['lines'] if ln[0] == 'f']
-            if [[Fraction(*x) for x in ln[1:]] for ln in vs] != [list(map(Fraction, n[1])) for n in case['nodes']]:
+            if [[Fraction(*unscale(x, case)) for x in ln[1:]] for ln in vs] != \
+                    [list(map(Fraction, n[1])) for n in case['nodes']]:
                 bad.append(('obj_vertices', None))
             objf = []
             for ln in fs:
@@ -409,7 +427,14 @@ def gen_cases(ctx):
         kind = kinds[k % len(kinds)]
         tet2 = kind == 'tet' and rng.random() < 0.5
         m = c10_gen.gen_mesh(rng, kind=kind, tet2=tet2, max_elems=40 if ctx.tier == 'quick' else 60)
-        cases.append({'nodes': m['nodes'], 'blocks': m['blocks'], 'meta': m['meta'], 'valid': True})
+        c = {'nodes': m['nodes'], 'blocks': m['blocks'], 'meta': m['meta'], 'valid': True}
+        # length scale (exact powers of two): volumes scale by s^3 (C10_volume_scale), the surface
+        # does not change; the model runs on the unscaled integer mesh
+        if k % 4 == 3:
+            sc = [(1, 2 ** 11), (1, 2 ** 13), (2 ** 7, 1)][(k // 4) % 3]
+            c['scale'] = list(sc)
+            c['meta'] = dict(c['meta'], scale='%d/%d' % sc)
+        cases.append(c)
     # single reference-like elements of each type (any table slip shows here first)
     for kind in ['hex', 'tet', 'pyr', 'prism']:
         for aff in c10_gen.AFFINE[:3]:
@@ -454,7 +479,8 @@ def gen_cases(ctx):
 
 
 def signature(case, check):
-    return {'check': check, 'kind': case['meta'].get('kind'), 'types': sorted(case['blocks'])}
+    return {'check': check, 'kind': case['meta'].get('kind'), 'types': sorted(case['blocks']),
+            'scale': case['meta'].get('scale', '1')}
 
 
 def shrink(ctx, case, still_fails, budget=8):
@@ -553,6 +579,7 @@ def main(ctx):
         meta = c['meta']
         n_el = sum(len(v) for v in c['blocks'].values())
         ctx.count('kind:' + str(meta.get('kind')))
+        ctx.count('scale:' + str(meta.get('scale', '1')))
         ctx.count('ids:' + str(meta.get('id_mode')))
         ctx.count('affine:' + str(meta.get('affine')))
         ctx.count('types:' + '+'.join(sorted(c['blocks'])))
@@ -602,7 +629,7 @@ def main(ctx):
         ob = oracle(dict(small, id=0), rr)
         ctx.violation('impl-violation',
                       {'nodes': small['nodes'], 'blocks': small['blocks'], 'meta': c['meta'],
-                       'want': small['want'], 'shrunk_from_elements': sum(len(v) for v in c['blocks'].values())},
+                       'scale': small.get('scale'), 'want': small['want'], 'shrunk_from_elements': sum(len(v) for v in c['blocks'].values())},
                       'surface = faces owned by exactly one element, closed, outward, enclosing the element '
                       'volumes; to_surface / OBJ / fistr describe the same faces',
                       {'failed_checks': [[a, b] for a, b in (ob or bads)][:4]},
@@ -615,7 +642,8 @@ def main(ctx):
         c = cases[cid]
         what = 'scratch file did not compile' if chks is None else ','.join(chks)
         ctx.violation('correspondence',
-                      {'nodes': c['nodes'], 'blocks': c['blocks'], 'meta': c['meta'], 'want': c['want']},
+                      {'nodes': c['nodes'], 'blocks': c['blocks'], 'meta': c['meta'], 'want': c['want'],
+                       'scale': c.get('scale')},
                       'model = implementation on ' + what, {'failing_checks': chks,
                                                            'impl': {k: (v if is_err(v) else '...') for k, v in res[cid].items() if k != 'id'}},
                       'correspondence C10 (Corr.v checks ' + what + ')', found_input=False,
@@ -642,6 +670,8 @@ def replay(path):
     ctx = lib.Ctx(PID, 'quick')
     case = {'id': 0, 'nodes': c['nodes'], 'blocks': c['blocks'], 'meta': c.get('meta', {}),
             'want': c.get('want') or want_for(c), 'valid': True}
+    if c.get('scale'):
+        case['scale'] = c['scale']
     r = run_impl(ctx, [case], tag='replay')[0]
     bad = oracle(case, r)
     print('implementation:', json.dumps({k: v for k, v in r.items() if k in ('surface', 'fistr')})[:1500])
